@@ -6,6 +6,7 @@ oracle: the property's statement evaluated on the real objects — a legal
 construction decodes back to an equal object with the same str(), no two
 different objects share a (frame, device type), illegal arguments raise."""
 from props import cmdcommon as cc
+from gen import _registry as reg_
 from common import tok
 
 ID = "C02"
@@ -193,7 +194,7 @@ def correspond(ctx, corr):
         name = qn(c)
         if fam == "std":
             dests = gear + [0, 5, 63]
-            if c._hasparam:
+            if reg_.hasparam_of(c):
                 for d in dests:
                     for p in range(16):
                         run.case("mk std %s %s %s" % (name, atok(d), tok(p)), lambda: c(d, p), True)
@@ -206,7 +207,7 @@ def correspond(ctx, corr):
                     run.case("mk std %s %s" % (name, atok(d)), lambda: c(d), True)
                 run.case("mk std %s %s i:1" % (name, atok(gear[5])), lambda: c(gear[5], 1), False)
             for d in [64, -1, 1.5, None, "x", dev[0], dev[5], dev[40]]:
-                args = (d, 3) if c._hasparam else (d,)
+                args = (d, 3) if reg_.hasparam_of(c) else (d,)
                 run.case("mk std %s %s" % (name, " ".join(atok(a) for a in args)), lambda: c(*args), False)
         elif fam == "dapc":
             for d in gear + [0, 63]:
@@ -217,7 +218,7 @@ def correspond(ctx, corr):
             for d in [64, None, "x", dev[3]]:
                 run.case("mk dapc - %s i:5" % atok(d), lambda: c(d, 5), False)
         elif fam == "special":
-            if c._hasparam:
+            if reg_.hasparam_of(c):
                 for p in range(256):
                     run.case("mk special %s %s" % (name, tok(p)), lambda: c(p), True)
                 for p in [256] + BAD_INTS:
@@ -293,7 +294,8 @@ def events_for(c, name, run, rng, ctx):
     if c in (dg.AmbiguousInstanceType,):
         return
     is_unknown = c is dg.UnknownEvent
-    itype = None if is_unknown else c._instance_type
+    itype = None if is_unknown else (getattr(c, "_instance_type", None) if getattr(c, "_instance_type", None) is not None
+                                     else c(instance_group=0).instance_type)
 
     def datas():
         if issubclass(c, occupancy.OccupancyEvent):
